@@ -18,9 +18,12 @@ Qed.
 Print Assumptions pipeflow_frame.
 
 (* ... and no reachable function writes a user key or writes through an alias of user data; property
-   getters of fluids / standard types do not assign to their object *)
+   getters of fluids / standard types do not assign to their object; and the model's premise that the net object
+   is ALL the state there is: no module of the calculation packages keeps state of its own across calls
+   (memoising decorators / wrappers, module globals assigned or mutated in functions, mutated default arguments,
+   attributes on function objects) *)
 Theorem no_user_write_in_reachable_code :
-  forallb fn_writes_ok fn_effects = true /\ alias_writes = [] /\ getter_mutations = [] /\
+  forallb fn_writes_ok fn_effects = true /\ alias_writes = [] /\ getter_mutations = [] /\ hidden_state = [] /\
   writes_user prog_other_mode = false /\ Nat.leb 40 (length fn_effects) = true.
 Proof.
   generalize summary_ok_true frame_ok_true. unfold summary_ok, frame_ok. intros H G.
@@ -28,6 +31,7 @@ Proof.
   apply andb_true_iff in G. destruct G as [_ G]. apply negb_true_iff in G.
   assert (A1 : alias_writes = []) by (destruct alias_writes; auto; discriminate).
   assert (A2 : getter_mutations = []) by (destruct getter_mutations; auto; discriminate).
+  assert (A3 : hidden_state = []) by (destruct hidden_state; auto; discriminate).
   repeat split; auto; try (vm_compute; reflexivity).
 Qed.
 Print Assumptions no_user_write_in_reachable_code.
